@@ -295,7 +295,26 @@ func runReplayTest(repo, pkgdir, tags, src string) (bool, bool, string) {
 
 func tryReplay(verif, prop string, o *Obligation, rf *replayFile) {
 	fv := o.fv
-	if fv == nil || fv.replayTemplate == "" || (o.Res.Verdict != VSat && !o.candidate) {
+	if fv == nil {
+		return
+	}
+	// a clause may name its own template: //@ flag replay@post(4) <template>
+	tmplName := fv.replayTemplate
+	if fv.C != nil {
+		if i := strings.Index(o.Name, "#"); i >= 0 {
+			tail := o.Name[i+1:]
+			if j := strings.Index(tail, "@"); j >= 0 {
+				tail = tail[:j]
+			}
+			if j := strings.Index(tail, "~"); j >= 0 {
+				tail = tail[:j]
+			}
+			if t := fv.C.Flags["replay@"+tail]; t != "" {
+				tmplName = strings.Fields(t)[0]
+			}
+		}
+	}
+	if tmplName == "" || (o.Res.Verdict != VSat && !o.candidate && fv.replayArgs != nil) {
 		return
 	}
 	args, ok := fv.renderReplayArgs(o.Res.Output)
@@ -303,7 +322,7 @@ func tryReplay(verif, prop string, o *Obligation, rf *replayFile) {
 		rf.ReplayOut = "model did not give values for all replay inputs"
 		return
 	}
-	tmpl, err := os.ReadFile(filepath.Join(verif, "replay", fv.replayTemplate+".go.tmpl"))
+	tmpl, err := os.ReadFile(filepath.Join(verif, "replay", tmplName+".go.tmpl"))
 	if err != nil {
 		rf.ReplayOut = err.Error()
 		return
